@@ -30,7 +30,7 @@ inductive Shape (nS nM : Nat) (e : Enc) (ev : MEv) (e' : Enc) : Prop
   | segno : ev.type = mds_SEGNO → e' = afterSegno e → Shape nS nM e ev e'
   | cmd (b : Nat) (r : List Nat) : b ≥ 0xe0 → InsOk (b :: r) → e'.out = e.out ++ b :: r → e'.lastType ≥ 0xe0 →
       e'.breaks.filter (· != 0) = e.breaks.filter (· != 0) → e'.breaks.length = dstep ev.type e.breaks.length →
-      (∀ s, stepI (b :: r) s = stepI (evIns nS nM ev) s) → b = ev.type → Shape nS nM e ev e'
+      (∀ s, stepI (b :: r) s = stepI (evIns nS nM ev) s) → b = ev.type → (∀ x ∈ b :: r, x < 256) → Shape nS nM e ev e'
   | lpb (r : List Nat) : ev.type = mds_LPB → e.breaks = 0 :: r → e' = atLPB e r → Shape nS nM e ev e'
   | lpf (b : Nat) (r : List Nat) : ev.type = mds_LPF → e.breaks = b :: r → b ≠ 0 → e.out.length + 4 ≤ e'.out.length →
       encEv nS nM e ev = .ok e' → Shape nS nM e ev e'
@@ -97,6 +97,16 @@ theorem encEv_lpf_empty (nS nM : Nat) (e : Enc) (arg : Nat) (hb : e.breaks = [])
   have a2 : ¬ (mds_LPF < mds_SLR ∧ arg ≠ 0) := by simp [mds_LPF, mds_SLR]
   simp only [encEv, a0, false_and, a1, a2, if_false, encOther_lpf, hb]
 
+theorem bytes1 {a : Nat} (ha : a < 256) : ∀ x ∈ [a], x < 256 := by
+  intro x hx; simp only [List.mem_singleton] at hx; subst hx; exact ha
+theorem bytes2 {a b : Nat} (ha : a < 256) (hb : b < 256) : ∀ x ∈ [a, b], x < 256 := by
+  intro x hx; simp only [List.mem_cons, List.mem_nil_iff, or_false] at hx; rcases hx with rfl | rfl <;> assumption
+theorem bytes3 {a b c : Nat} (ha : a < 256) (hb : b < 256) (hc : c < 256) : ∀ x ∈ [a, b, c], x < 256 := by
+  intro x hx; simp only [List.mem_cons, List.mem_nil_iff, or_false] at hx; rcases hx with rfl | rfl | rfl <;> assumption
+theorem byteArgOps_lt : ∀ x ∈ byteArgOps, x < 256 := by decide
+theorem wordArgOps_lt : ∀ x ∈ wordArgOps, x < 256 := by decide
+theorem ite_mod_lt (c : Prop) [Decidable c] (a : Nat) : (if c then a % 256 else 0) < 256 := by split <;> omega
+
 theorem cmdLen_byte : ∀ x ∈ byteArgOps, cmdLen x = some 2 := by decide
 theorem cmdLen_word : ∀ x ∈ wordArgOps, cmdLen x = some 3 := by decide
 theorem byte_not_loop : ∀ x ∈ byteArgOps, x ≠ mds_LP ∧ x ≠ mds_LPF ∧ x ≠ mds_LPB ∧ ¬ x < mds_SLR := by decide
@@ -109,11 +119,12 @@ theorem shape_of_append {nS nM : Nat} {e e' : Enc} {ty arg : Nat} {ops : List Na
     (he : e' = { e with out := e.out ++ ty :: ops, lastType := ty } ∨
           ∃ lr ln sp, e' = { e with out := e.out ++ ty :: ops, lastType := ty, lastRest := lr, lastNote := ln, segnoPos := sp })
     (hge : ty ≥ 0xe0) (hok : InsOk (ty :: ops)) (h1 : ty ≠ mds_LP) (h2 : ty ≠ mds_LPF)
-    (hst : ∀ s, stepI (ty :: ops) s = stepI (evIns nS nM ⟨ty, arg⟩) s) : Shape nS nM e ⟨ty, arg⟩ e' := by
+    (hst : ∀ s, stepI (ty :: ops) s = stepI (evIns nS nM ⟨ty, arg⟩) s) (hby : ∀ x ∈ ty :: ops, x < 256) :
+    Shape nS nM e ⟨ty, arg⟩ e' := by
   have facts : e'.out = e.out ++ ty :: ops ∧ e'.lastType = ty ∧ e'.breaks = e.breaks := by
     rcases he with rfl | ⟨_, _, _, rfl⟩ <;> exact ⟨rfl, rfl, rfl⟩
   obtain ⟨f1, f2, f3⟩ := facts
-  exact .cmd ty ops hge hok f1 (by rw [f2]; exact hge) (by rw [f3]) (by rw [f3]; simp [dstep, h1, h2]) hst rfl
+  exact .cmd ty ops hge hok f1 (by rw [f2]; exact hge) (by rw [f3]) (by rw [f3]; simp [dstep, h1, h2]) hst rfl hby
 
 /-- **closed form of one iteration** -/
 theorem encEv_shape (nS nM : Nat) {e e' : Enc} {ev : MEv} (hok : okEv ev = true) (h : encEv nS nM e ev = .ok e') :
@@ -146,12 +157,12 @@ theorem encEv_shape (nS nM : Nat) {e e' : Enc} {ev : MEv} (hok : okEv ev = true)
         exact .note ht h2 (by show 1 ≤ arg; omega) harg h.symm
   · -- slur
     rw [encEv_other (Nat.le_refl _) (encOther_slr nS nM e arg)] at h; injection h with h
-    refine shape_of_append (ops := []) (.inl h.symm) (by decide) (.cmd _ _ (by decide) (by first | decide | (show cmdLen _ = some 2; decide) | (show cmdLen _ = some 3; decide))) (by decide) (by decide) (fun s => ?_)
+    refine shape_of_append (ops := []) (.inl h.symm) (by decide) (.cmd _ _ (by decide) (by first | decide | (show cmdLen _ = some 2; decide) | (show cmdLen _ = some 3; decide))) (by decide) (by decide) (fun s => ?_) (bytes1 (by decide))
     simp [evIns, mds_SLR, byteArgOps, mds_PAT, mds_MTAB, mds_INS, mds_PCM, mds_PEG, mds_VOL, mds_VOLM, mds_TRS, mds_TRSM,
       mds_DTN, mds_PTA, mds_PAN, mds_LFO, mds_FLG, mds_DMFINISH, mds_COMM, mds_TEMPO, mds_PCMRATE, mds_PCMMODE]
   · -- finish
     rw [encEv_finish] at h; injection h with h
-    refine shape_of_append (ops := []) (.inl h.symm) (by decide) (.cmd _ _ (by decide) (by first | decide | (show cmdLen _ = some 2; decide) | (show cmdLen _ = some 3; decide))) (by decide) (by decide) (fun s => ?_)
+    refine shape_of_append (ops := []) (.inl h.symm) (by decide) (.cmd _ _ (by decide) (by first | decide | (show cmdLen _ = some 2; decide) | (show cmdLen _ = some 3; decide))) (by decide) (by decide) (fun s => ?_) (bytes1 (by decide))
     simp [evIns, mds_FINISH, mds_SLR, byteArgOps, mds_PAT, mds_MTAB, mds_INS, mds_PCM, mds_PEG, mds_VOL, mds_VOLM, mds_TRS, mds_TRSM,
       mds_DTN, mds_PTA, mds_PAN, mds_LFO, mds_FLG, mds_DMFINISH, mds_COMM, mds_TEMPO, mds_PCMRATE, mds_PCMMODE]
   · -- one-byte commands
@@ -161,6 +172,7 @@ theorem encEv_shape (nS nM : Nat) {e e' : Enc} {ev : MEv} (hok : okEv ev = true)
     rw [encEv_other (by simpa [mds_SLR] using hge) (encOther_byte nS nM e arg hb) (by rintro ⟨hh, _⟩; exact k3 hh)] at h
     injection h with h
     refine shape_of_append (ops := [arg % 256]) (.inl h.symm) hge (.cmd _ _ hge (cmdLen_byte ty hmem)) k1 k2 (fun s => ?_)
+      (bytes2 (byteArgOps_lt ty hmem) (Nat.mod_lt _ (by decide)))
     have : ¬ (⟨ty, arg⟩ : MEv).type < mds_SLR := k4
     simp [evIns, this, hmem]
   · -- two-byte commands
@@ -170,6 +182,7 @@ theorem encEv_shape (nS nM : Nat) {e e' : Enc} {ev : MEv} (hok : okEv ev = true)
     rw [encEv_other (by simpa [mds_SLR] using hge) (encOther_word nS nM e arg hw) (by rintro ⟨hh, _⟩; exact k3 hh)] at h
     injection h with h
     refine shape_of_append (ops := [arg / 256 % 256, arg % 256]) (.inl h.symm) hge (.cmd _ _ hge (cmdLen_word ty hmem)) k1 k2 (fun s => ?_)
+      (bytes3 (wordArgOps_lt ty hmem) (Nat.mod_lt _ (by decide)) (Nat.mod_lt _ (by decide)))
     have : ¬ (⟨ty, arg⟩ : MEv).type < mds_SLR := k4
     have k5' : ty ∉ byteArgOps := by simpa using k5
     have e1 : evIns nS nM ⟨ty, arg⟩ = [ty] := by simp [evIns, this, k5', k6, k7, k8, k9, k10]
@@ -177,31 +190,31 @@ theorem encEv_shape (nS nM : Nat) {e e' : Enc} {ev : MEv} (hok : okEv ev = true)
   · -- MTAB
     rw [encEv_other (by decide) (encOther_mtab nS nM e arg)] at h; injection h with h
     refine shape_of_append (ops := [if arg ≠ 0 then (arg + nS) % 256 else 0]) (.inl h.symm) (by decide)
-      (.cmd _ _ (by decide) (by first | decide | (show cmdLen _ = some 2; decide) | (show cmdLen _ = some 3; decide))) (by decide) (by decide) (fun s => ?_)
+      (.cmd _ _ (by decide) (by first | decide | (show cmdLen _ = some 2; decide) | (show cmdLen _ = some 3; decide))) (by decide) (by decide) (fun s => ?_) (bytes2 (by decide) (ite_mod_lt _ _))
     simp [evIns, mds_MTAB, mds_SLR, byteArgOps, mds_PAT, mds_VOL, mds_VOLM, mds_TRS, mds_TRSM,
       mds_DTN, mds_PTA, mds_PAN, mds_LFO, mds_FLG, mds_DMFINISH, mds_COMM, mds_TEMPO, mds_PCMRATE, mds_PCMMODE]
   · -- INS
     rw [encEv_other (by decide) (encOther_ins nS nM e arg (.inl rfl))] at h; injection h with h
     refine shape_of_append (ops := [(nS + nM + arg) % 256]) (.inl h.symm) (by decide)
-      (.cmd _ _ (by decide) (by first | decide | (show cmdLen _ = some 2; decide) | (show cmdLen _ = some 3; decide))) (by decide) (by decide) (fun s => ?_)
+      (.cmd _ _ (by decide) (by first | decide | (show cmdLen _ = some 2; decide) | (show cmdLen _ = some 3; decide))) (by decide) (by decide) (fun s => ?_) (bytes2 (by decide) (Nat.mod_lt _ (by decide)))
     simp [evIns, mds_INS, mds_MTAB, mds_SLR, byteArgOps, mds_PAT, mds_VOL, mds_VOLM, mds_TRS, mds_TRSM,
       mds_DTN, mds_PTA, mds_PAN, mds_LFO, mds_FLG, mds_DMFINISH, mds_COMM, mds_TEMPO, mds_PCMRATE, mds_PCMMODE]
   · -- PCM
     rw [encEv_other (by decide) (encOther_ins nS nM e arg (.inr rfl))] at h; injection h with h
     refine shape_of_append (ops := [(nS + nM + arg) % 256]) (.inl h.symm) (by decide)
-      (.cmd _ _ (by decide) (by first | decide | (show cmdLen _ = some 2; decide) | (show cmdLen _ = some 3; decide))) (by decide) (by decide) (fun s => ?_)
+      (.cmd _ _ (by decide) (by first | decide | (show cmdLen _ = some 2; decide) | (show cmdLen _ = some 3; decide))) (by decide) (by decide) (fun s => ?_) (bytes2 (by decide) (Nat.mod_lt _ (by decide)))
     simp [evIns, mds_PCM, mds_INS, mds_MTAB, mds_SLR, byteArgOps, mds_PAT, mds_VOL, mds_VOLM, mds_TRS, mds_TRSM,
       mds_DTN, mds_PTA, mds_PAN, mds_LFO, mds_FLG, mds_DMFINISH, mds_COMM, mds_TEMPO, mds_PCMRATE, mds_PCMMODE]
   · -- PEG
     rw [encEv_other (by decide) (encOther_peg nS nM e arg)] at h; injection h with h
     refine shape_of_append (ops := [if arg ≠ 0 then (nS + nM + arg) % 256 else 0]) (.inl h.symm) (by decide)
-      (.cmd _ _ (by decide) (by first | decide | (show cmdLen _ = some 2; decide) | (show cmdLen _ = some 3; decide))) (by decide) (by decide) (fun s => ?_)
+      (.cmd _ _ (by decide) (by first | decide | (show cmdLen _ = some 2; decide) | (show cmdLen _ = some 3; decide))) (by decide) (by decide) (fun s => ?_) (bytes2 (by decide) (ite_mod_lt _ _))
     simp [evIns, mds_PEG, mds_PCM, mds_INS, mds_MTAB, mds_SLR, byteArgOps, mds_PAT, mds_VOL, mds_VOLM, mds_TRS, mds_TRSM,
       mds_DTN, mds_PTA, mds_PAN, mds_LFO, mds_FLG, mds_DMFINISH, mds_COMM, mds_TEMPO, mds_PCMRATE, mds_PCMMODE]
   · -- JUMP
     rw [encEv_jump] at h; injection h with h
     refine shape_of_append (ops := [jumpOff e / 256, jumpOff e % 256]) (.inr ⟨e.lastRest, e.lastNote, jumpOff e, h.symm⟩) (by decide)
-      (.cmd _ _ (by decide) (by first | decide | (show cmdLen _ = some 2; decide) | (show cmdLen _ = some 3; decide))) (by decide) (by decide) (fun s => ?_)
+      (.cmd _ _ (by decide) (by first | decide | (show cmdLen _ = some 2; decide) | (show cmdLen _ = some 3; decide))) (by decide) (by decide) (fun s => ?_) (bytes3 (by decide) (by unfold jumpOff; omega) (Nat.mod_lt _ (by decide)))
     have e1 : evIns nS nM ⟨mds_JUMP, arg⟩ = [mds_JUMP] := by
       simp [evIns, mds_JUMP, mds_PEG, mds_PCM, mds_INS, mds_MTAB, mds_SLR, byteArgOps, mds_PAT, mds_VOL, mds_VOLM, mds_TRS, mds_TRSM,
         mds_DTN, mds_PTA, mds_PAN, mds_LFO, mds_FLG, mds_DMFINISH, mds_COMM, mds_TEMPO, mds_PCMRATE, mds_PCMMODE]
@@ -209,12 +222,12 @@ theorem encEv_shape (nS nM : Nat) {e e' : Enc} {ev : MEv} (hok : okEv ev = true)
   · -- PAT
     rw [encEv_pat] at h; injection h with h
     refine shape_of_append (ops := [arg % 256]) (.inr ⟨U16, U16, e.segnoPos, by rw [← h]; rfl⟩) (by decide)
-      (.cmd _ _ (by decide) (by first | decide | (show cmdLen _ = some 2; decide) | (show cmdLen _ = some 3; decide))) (by decide) (by decide) (fun s => ?_)
+      (.cmd _ _ (by decide) (by first | decide | (show cmdLen _ = some 2; decide) | (show cmdLen _ = some 3; decide))) (by decide) (by decide) (fun s => ?_) (bytes2 (by decide) (Nat.mod_lt _ (by decide)))
     simp [evIns, mds_PAT, mds_SLR]
   · -- LP
     rw [encEv_lp] at h; injection h with h
     subst h
-    refine .cmd mds_LP [] (by decide) (.cmd _ _ (by decide) (by decide)) rfl (by show mds_LP ≥ 224; decide) (by simp) (by simp [dstep]) (fun s => ?_) rfl
+    refine .cmd mds_LP [] (by decide) (.cmd _ _ (by decide) (by decide)) rfl (by show mds_LP ≥ 224; decide) (by simp) (by simp [dstep]) (fun s => ?_) rfl (bytes1 (by decide))
     simp [evIns, mds_LP, mds_JUMP, mds_PEG, mds_PCM, mds_INS, mds_MTAB, mds_SLR, byteArgOps, mds_PAT, mds_VOL, mds_VOLM, mds_TRS, mds_TRSM,
       mds_DTN, mds_PTA, mds_PAN, mds_LFO, mds_FLG, mds_DMFINISH, mds_COMM, mds_TEMPO, mds_PCMRATE, mds_PCMMODE]
   · -- LPB
@@ -240,7 +253,7 @@ theorem encEv_shape (nS nM : Nat) {e e' : Enc} {ev : MEv} (hok : okEv ev = true)
         rw [encEv_lpf_nobreak nS nM e arg r hbr] at h; injection h with h
         subst h
         refine .cmd mds_LPF [arg % 256] (by decide) (.cmd _ _ (by decide) (by show cmdLen _ = some 2; decide)) rfl (by show mds_LPF ≥ 224; decide) (by simp [hbr])
-          (by simp [dstep, hbr, mds_LPF, mds_LP]) (fun s => ?_) rfl
+          (by simp [dstep, hbr, mds_LPF, mds_LP]) (fun s => ?_) rfl (bytes2 (by decide) (Nat.mod_lt _ (by decide)))
         have e1 : evIns nS nM ⟨mds_LPF, arg⟩ = [mds_LPF] := by
           simp [evIns, mds_LPF, mds_JUMP, mds_PEG, mds_PCM, mds_INS, mds_MTAB, mds_SLR, byteArgOps, mds_PAT, mds_VOL, mds_VOLM, mds_TRS, mds_TRSM,
             mds_DTN, mds_PTA, mds_PAN, mds_LFO, mds_FLG, mds_DMFINISH, mds_COMM, mds_TEMPO, mds_PCMRATE, mds_PCMMODE]
